@@ -158,6 +158,7 @@ func scanC(src string) ([]cDecl, error) {
 		out = append(out, cDecl{Kind: "m", Name: d.s, Linkage: "define", Def: true, Line: d.line})
 	}
 	depth := 0
+	inFunc := false
 	var cur []cTok
 	flush := func(endsWith string) {
 		defer func() { cur = nil }()
@@ -173,6 +174,43 @@ func scanC(src string) ([]cDecl, error) {
 	for i < len(toks) {
 		tk := toks[i]
 		if depth > 0 {
+			// block-scope `static` objects (function-local statics) are global
+			// data too: record those declared without `const`.
+			if inFunc && tk.s == "static" && (i == 0 || toks[i-1].s == ";" || toks[i-1].s == "{" || toks[i-1].s == "}") {
+				konst := false
+				name := ""
+				j := i + 1
+				for ; j < len(toks); j++ {
+					x := toks[j].s
+					if x == "{" || x == "=" || x == ";" || x == "[" {
+						break
+					}
+					if x == "const" {
+						konst = true
+					}
+					if isIdentStart(x[0]) {
+						name = x
+					}
+				}
+				if j < len(toks) && toks[j].s == "{" {
+					// `static struct { … } name[] = …`: the name follows the body
+					d2 := 0
+					for ; j < len(toks); j++ {
+						if toks[j].s == "{" {
+							d2++
+						} else if toks[j].s == "}" {
+							d2--
+							if d2 == 0 {
+								break
+							}
+						}
+					}
+					if j+1 < len(toks) && isIdentStart(toks[j+1].s[0]) {
+						name = toks[j+1].s
+					}
+				}
+				out = append(out, cDecl{Kind: "l", Name: name, Linkage: "static", Const: konst, Def: true, Line: tk.line})
+			}
 			switch tk.s {
 			case "{":
 				depth++
@@ -206,8 +244,10 @@ func scanC(src string) ([]cDecl, error) {
 				i++
 				continue
 			}
+			inFunc = false
 			if hasParenDeclarator(cur) && !containsTok(cur, "=") {
 				cur = append(cur, cTok{"#body", tk.line})
+				inFunc = true
 			}
 			depth++
 		case "}":
